@@ -245,6 +245,14 @@ func RunRegHistory(ops []string, rot int, objNames []string) {
 		for _, b := range compareRegistryMulti(g, model) {
 			add("tables", "tables_out_of_step", b)
 		}
+		// … and the names that are NOT registered yet are found by no lookup (the very names the next registrations will
+		// use: a lookup that remembers its misses turns this probe into a later violation of the line above)
+		for _, k := range []string{"cert", "crl", "ocsp"} {
+			next := fmt.Sprintf("n_zz_hist_%s_%d", k, counter+1)
+			if g.ByName(next) != nil || g.CertificateLints().ByName(next) != nil || g.RevocationListLints().ByName(next) != nil || g.OcspResponseLints().ByName(next) != nil {
+				add("tables", "unregistered_name_found", "a lookup by name finds "+next+", which has not been registered")
+			}
+		}
 		out.Validated++
 	}
 	b, _ := json.Marshal(out)
